@@ -366,9 +366,9 @@ pub fn parse<S: Src + ?Sized>(src: &S, o: Opts) -> Result<Parsed, String> {
             if pe.local_name != pe.name {
                 return Err(format!("entry {i}: local name differs from central name"));
             }
-            if lver != pe.version_needed {
-                return Err(format!("entry {i}: local version-needed {lver} != central {}", pe.version_needed));
-            }
+            // version-needed: the local header of a large_file entry is written before its size is
+            // known (20) while the central record says 45; the property does not list this field,
+            // so only the central value is constrained (>= 45 with a ZIP64 record, below)
             let ascii = pe.name.is_ascii();
             let utf8 = pe.flags & (1 << 11) != 0;
             if utf8 == ascii {
